@@ -38,7 +38,7 @@ def run(chk):
     chk.rule("R02.4", "verify / verify_digest return only True")
     chk.rule("R02.5", "only BadSignatureError (BadDigestError with allow_truncate=False) escapes verify / verify_digest")
     from . import formulas
-    formulas.verify_formula(chk, world().p, "C02", "R02.7")
+    formulas.deferred(chk, formulas.verify_formula, world().p, "C02", "R02.7")
     chk.configs = ["py3"]
     W = world()
     q = "ecdsa:Public_key.verifies"
